@@ -640,6 +640,81 @@ class C09(Check):
                     "to delphin.tsdb by the correspondence run",
                     "generated tables fieldDelimiter, tsdbEscapes, codedAttributes read from the live module"]
 
+
+    # ---- pins: constants of the anchored code that the model / oracle hand-code an equivalent of
+    PINNED = [("GetPaths", "_get_paths", True), ("GetPath", "get_path", False), ("Open", "open", False),
+              ("Write", "write", True), ("WriteDatabase", "write_database", False),
+              ("RemakeRecords", "_remake_records", False), ("MakeRecord", "make_record", False),
+              ("CleanupFiles", "_cleanup_files", False), ("InitializeDatabase", "initialize_database", False),
+              ("ParseSchema", "_parse_schema", False), ("FormatSchema", "_format_schema", False),
+              ("WriteSchema", "write_schema", False), ("ReadSchema", "read_schema", False),
+              ("FieldStr", "Field.__str__", False), ("FieldInit", "Field.__init__", False),
+              ("Split", "split", False), ("Join", "join", False), ("RelationInit", "Relation.__init__", False),
+              ("DatabaseInit", "Database.__init__", False), ("DatabaseGetitem", "Database.__getitem__", False),
+              ("SelectFrom", "Database.select_from", False)]
+
+    def tables(self):
+        """Constants (string/number/None/bool literals, keyword arguments with literal values, for `_get_paths`
+        and `write` also the comparison/boolean operators) of the anchored functions, in source order, read from
+        the live module through its AST; docstrings, annotations and everything inside `raise` / `warnings.warn`
+        (message texts) left out.  Plus default argument values and the module-level constants."""
+        import ast
+        import inspect
+        import textwrap
+        from .common import tables as T
+
+        def resolve(path):
+            obj = tsdb
+            for part in path.split("."):
+                obj = getattr(obj, part)
+            return obj
+
+        def consts(fn, ops):
+            fdef = ast.parse(textwrap.dedent(inspect.getsource(fn))).body[0]
+            doc = ast.get_docstring(fdef, clean=False)
+            out = []
+
+            def walk(node, kw=None):
+                if isinstance(node, ast.Raise):
+                    return
+                if (isinstance(node, ast.Call) and isinstance(node.func, ast.Attribute)
+                        and node.func.attr == "warn"):
+                    return
+                if isinstance(node, ast.Constant):
+                    val = node.value
+                    if isinstance(val, str) and val == doc and kw is None:
+                        return
+                    out.append(("%s=%r" % (kw, val)) if kw else (val if isinstance(val, str) else repr(val)))
+                    return
+                if isinstance(node, ast.keyword):
+                    walk(node.value, node.arg if isinstance(node.value, ast.Constant) else None)
+                    return
+                if ops and isinstance(node, ast.Compare):
+                    out.extend("op:" + type(o).__name__ for o in node.ops)
+                if ops and isinstance(node, (ast.BoolOp, ast.UnaryOp)):
+                    out.append("op:" + type(node.op).__name__)
+                for ch in ast.iter_child_nodes(node):
+                    if isinstance(node, ast.FunctionDef) and (ch is node.args or ch is node.returns):
+                        continue
+                    if isinstance(ch, ast.AnnAssign):
+                        if ch.value is not None:
+                            walk(ch.value)
+                        continue
+                    walk(ch)
+            walk(fdef)
+            return out
+        lit = T.lean_strlit
+        lines = []
+        defaults = []
+        for lean_name, path, ops in self.PINNED:
+            fn = resolve(path)
+            lines.append("def c09%sConsts : List String := [%s]" % (lean_name, ", ".join(lit(c) for c in consts(fn, ops))))
+            defaults.append((path, repr(fn.__defaults__), repr(fn.__kwdefaults__)))
+        lines.append("def c09Defaults : List (String × String × String) := [%s]"
+                     % ", ".join("(%s, %s, %s)" % (lit(a), lit(b), lit(c)) for a, b, c in defaults))
+        lines.append("def c09SchemaFilename : String := %s" % lit(tsdb.SCHEMA_FILENAME))
+        return lines
+
     root = None
 
     def setup(self):
